@@ -314,7 +314,7 @@ PROPS = {
     "C14": {
         "level": "proof",
         "lean_modules": ["SqlizeModel.Props.C14", "SqlizeModel.Props.TieMermaid", "SqlizeModel.Props.TieApiExport"],
-        "theorems": ["Sqlize.C14.select_all", "Sqlize.C14.select_named", "Sqlize.C14.line_per_column", "Sqlize.C14.block_per_table", "Sqlize.C14.relation_once", "Sqlize.C14.relation_exists", "Sqlize.C14.live_is_url", "Sqlize.Tie.mermaid_skeleton_as_modelled", "Sqlize.Tie.api_export_skeleton_as_modelled"],
+        "theorems": ["Sqlize.C14.blocks_of_the_reference_schema_partial", "Sqlize.C14.blocks_of_the_reference_schema_pg_partial", "Sqlize.erd_blocks_of_rel", "Sqlize.erd_blocks_of_schema", "Sqlize.C14.select_all", "Sqlize.C14.select_named", "Sqlize.C14.line_per_column", "Sqlize.C14.block_per_table", "Sqlize.C14.relation_once", "Sqlize.C14.relation_exists", "Sqlize.C14.live_is_url", "Sqlize.Tie.mermaid_skeleton_as_modelled", "Sqlize.Tie.api_export_skeleton_as_modelled"],
         "suites": [{"name": "export"}],
         "corr_points": ["MermaidJsErd", "MermaidJsLive"],
         "rule": EXPORT_RULE,
@@ -326,7 +326,7 @@ PROPS = {
     "C15": {
         "level": "proof",
         "lean_modules": ["SqlizeModel.Props.C15", "SqlizeModel.Props.TieAvro", "SqlizeModel.Props.TieApiExport"],
-        "theorems": ["Sqlize.C15.other_dialects_nothing", "Sqlize.C15.one_document_per_table", "Sqlize.C15.one_field_per_column", "Sqlize.C15.nullable_iff_default", "Sqlize.Tie.avro_skeleton_as_modelled", "Sqlize.Tie.api_export_skeleton_as_modelled"],
+        "theorems": ["Sqlize.C15.export_of_the_reference_schema", "Sqlize.avro_of_schema", "Sqlize.cols_fields", "Sqlize.field_of_spec", "Sqlize.C15.other_dialects_nothing", "Sqlize.C15.one_document_per_table", "Sqlize.C15.one_field_per_column", "Sqlize.C15.nullable_iff_default", "Sqlize.Tie.avro_skeleton_as_modelled", "Sqlize.Tie.api_export_skeleton_as_modelled"],
         "suites": [{"name": "export"}],
         "corr_points": ["ArvoSchema"],
         "rule": EXPORT_RULE,
@@ -335,7 +335,7 @@ PROPS = {
         "assumptions": ["identifiers need no JSON escaping beyond quote and backslash"],
         "explanation": "Proved of the model for every state: nothing for non-mysql dialects, one document per selected table in load order, one field per "
                        "column in table order, nullable union exactly when the column has a default. Tied by exact JSON text correspondence on the full "
-                       "type list with/without defaults and on random schemas/selections.",
+                       "type list with/without defaults and on random schemas/selections. From scripts (export_of_the_reference_schema, Proofs/AvroScripts): for every script of any length the reference engine accepts (MySQL reader model, column-safe vocabulary), ArvoSchema of the loaded model is, document by document, the export of the reference schema: one document per selected reference table in order, one field per reference column in table order, typed by the class of its type text, nullable exactly when it has a DEFAULT option — the simulation relation Rel carries it; nothing else of the loaded state reaches the export.",
     },
 
     "C17": {
